@@ -152,7 +152,10 @@ func runC05(cfg Config) {
 			"conversions over all 2^16 stat modes / all type x set-id x permission FileModes, mkdev/Rdev split; (c) on disk as root: generated "+
 			"trees -> Tar(LocalFS) -> UnTar(LocalFS) and -> ChunkStream+store -> UnTarIndex, under both digests, and via a GNU tar stream "+
 			"(TarReader), snapshots (lstat, readlink, xattrs, content, mtimes incl. directories) compared; gnu-tar and mtree writers checked "+
-			"for type, set-id bits and devices. non-trivial = distinct case with >= 3 records")
+			"for type, set-id bits and devices; (e) tarfs.go: archive/tar's FileInfo mode/name and path.Clean (tarfs.mode), headers over all type flags "+
+			"written in USTAR/PAX/GNU and read through TarReader (tarfs.read), whole tar streams through Tar (tarfs.tar), nodes through TarWriter "+
+			"against archive/tar's encoding of the model's header and read back through TarReader (tarfs.write). non-trivial = distinct case with >= 3 records "+
+			"(tarfs: every distinct case)")
 	m, err := StartModel(cfg.Driver)
 	if err != nil {
 		fatal(err)
@@ -162,6 +165,10 @@ func runC05(cfg Config) {
 	monitor := func(what, caseLine, impl, sig string) {
 		rep.Disagree(Disagreement{Kind: "monitor", Case: clip(caseLine, 100000), Impl: clip(impl, 1500), What: what, Sig: sig})
 	}
+
+	// (e) tarfs.go: tar-stream input and GNU-tar output legs against Model/TarFS.lean (tarfs.go of this harness); a generator of
+	// its own derived from the seed, so that the sections below see the stream of choices they always saw
+	runTarfs(cfg, rep, m, rand.New(rand.NewSource(cfg.Seed^0x7461726673)))
 
 	// (b) modes
 	for mo := 0; mo < 65536; mo++ {
